@@ -326,8 +326,10 @@ open Goml Goml.Sem Goml.Wt Goml.Mono Goml.ValTy
 /-- **Preservation with a store, partial.**  As `ValTy.sem_preserves_types_partial`, for the fragment WITH the reference
 builtins: from a well-typed world, a returned value inhabits its annotation under an append-only extension of the store
 typing, and the new world satisfies the invariant for that extension (so every later `ref_get` reads a value of the
-recorded type and no typed reference dangles).  Partial: no trait objects, `go`, builtins as values, impls for instances
-of generic types; progress is not stated. -/
+recorded type and no typed reference dangles).  Trait objects are typed values (`VT.dyn`: the packed value has a keyable type whose key the object carries): `toDyn` at a keyable
+source type and `dynCall` of an object-safe method (`objSafe`: `Self` is the receiver and occurs nowhere else) under the
+dispatch-table check `implsOk` are inside the fragment.  Partial: no `go`, builtins as values, impls for instances
+of generic types, `toDyn` at a type parameter; progress is not stated. -/
 theorem sem_preserves_types_store_partial (S : Sig) (P : Prog) (hS : SigClosed S) (hP : okProg S P true = true) (fuel : Nat)
     {e : Expr} {ρ : Env} {w : World} {Γ : TyEnv} {K : Know} {θ : Subst} {Ψ : List Ty} {v : Val} {w' : World}
     (hfrag : okE S P true Γ K e = true) (hwt : wt S Γ e = true) (hρ : ET S P Ψ θ ρ Γ) (hK : KOk K ρ) (hw : WT S P Ψ w)
@@ -370,5 +372,10 @@ example : okE ValTy.tsS ValTy.tsProg false [] []
     (.call (.ref (.int 32 true)) (.var "ref" (.func [.int 32 true] (.ref (.int 32 true)))) [.prim (.int 32 true 1)]) = false := by
   decide +kernel
 example : okProg ValTy.tsS ValTy.tsProg true = true := by decide +kernel
+-- trait objects: `let d: dyn A = S { n: 1 }; A::foo(d)` — `toDyn` at a keyable source type, `dynCall` on an object-safe method
+example : okE ValTy.tsS ValTy.tsProg true [] []
+    (.letE "d" (.toDyn "A" (.struct "S") (.dyn "A") (.constr (.struct "S") (.struct "S") [.prim (.int 32 true 1)]))
+      (.dynCall "A" "foo" .string (.var "d" (.dyn "A")) [])) = true ∧ objSafe ValTy.tsS "A" "foo" = true := by
+  decide +kernel
 
 end Goml.ValTyR
